@@ -786,7 +786,9 @@ func GetDeleteWriteChangelogItems(
 			case storage.OnDuplicateInsertIgnore:
 				// If the tuple exists and the condition is the same, we can ignore it.
 				// We need to use its serialized text instead of reflect.DeepEqual to avoid comparing internal values.
-				if proto.Equal(existingTuple.GetKey().GetCondition(), tk.GetCondition()) {
+				// An absent context and an empty context are the same condition: compare the normalised forms
+				// (the stored side was normalised by NewRelationshipCondition when it was read back).
+				if proto.Equal(existingTuple.GetKey().GetCondition(), tupleUtils.NewRelationshipCondition(tk.GetCondition().GetName(), tk.GetCondition().GetContext())) {
 					continue
 				}
 				// If tuple conditions are different, we throw an error.
